@@ -1,12 +1,12 @@
 #!/bin/sh
 # Soundness sweep: run every registered check on the (unchanged) tree under several VERIF_SEED values.
-#   tools/sweep.sh <tier> <seed> [<seed> ...]        evidence goes to $VERIF_EVIDENCE_DIR (set it to a scratch dir!)
+#   tools/sweep.sh <tier> <seed> [<seed> ...]        evidence goes to $VERIF_EVIDENCE_DIR (set it to a scratch dir!); SWEEP_IDS="C12 C18" restricts / orders the checks
 # Prints one line per run; exit status 1 if any run printed VIOLATION or ended non-zero.
 cd "$(dirname "$0")/.." || exit 2
 tier=$1; shift
 bad=0
 for seed in "$@"; do
-  for id in C01 C02 C03 C04 C05 C06 C07 C08 C09 C10 C11 C12 C13 C14 C15 C16 C17 C18 C19 C20; do
+  for id in ${SWEEP_IDS:-C01 C02 C03 C04 C05 C06 C07 C08 C09 C10 C11 C12 C13 C14 C15 C16 C17 C18 C19 C20}; do
     out=$(VERIF_SEED=$seed ./check $id --tier $tier 2>&1); rc=$?
     line=$(printf '%s\n' "$out" | grep -E "^\[$id\]" | tail -1)
     v=$(printf '%s\n' "$out" | grep -c "^VIOLATION")
